@@ -16,7 +16,8 @@ RULE = ('angles: a lattice over horizontal +-80 deg x vertical +-55 deg (1 deg q
         'sequential application, matrix/rot-vec/quaternion views agree, rotation matrices proper. solver: the geometry solver\'s vectorised '
         '_calc_angle_pairs against atan2 of the point transformed with Pose, including zero rotation vectors and rotation vectors with '
         'norm in (pi, 2pi) as the optimiser can produce. Non-trivial = direction within 2 deg of the field-of-view edge, a half-turn / tiny '
-        '/ zero rotation, or a rotation vector beyond pi.')
+        '/ zero rotation, or a rotation vector beyond pi. Poses: points also as integer tuples / arrays; a used pose re-scaled with scale() (and a '
+        'scaled copy) obeys the inverse laws again; the solver projection is also fed the parameters its own _pose_to_params derives.')
 ASSUMPTIONS = ['tolerances: 1e-9 rad for double precision paths, 1e-5 rad where the library returns float32 (cart, projection), 1e-6 for the unit norm',
                'scipy Rotation is used as reference for rotation-vector -> matrix conversion only in the solver-projection sub-check']
 
